@@ -18,14 +18,22 @@ use core::hash::Hash;
 use core::marker::PhantomData;
 use core::mem::MaybeUninit;
 
+#[cfg(feature = "std")]
 pub use std::collections::HashSet;
+#[cfg(not(feature = "std"))]
+pub use hashbrown::HashSet;
+
+#[cfg(feature = "std")]
+type DefaultS = std::collections::hash_map::RandomState;
+#[cfg(not(feature = "std"))]
+type DefaultS = hashbrown::DefaultHashBuilder;
 
 pub const VMAP_CAP: usize = match option_env!("VERIF_N") {
     Some(s) => (s.as_bytes()[0] - b'0') as usize + 1,
     None => 4,
 };
 
-pub struct HashMap<K, V, S = std::collections::hash_map::RandomState> {
+pub struct HashMap<K, V, S = DefaultS> {
     pub(crate) slots: [MaybeUninit<(K, V)>; VMAP_CAP],
     pub(crate) len: usize,
     hasher: S,
